@@ -20,3 +20,18 @@ def run(ctx):
     if R.ok:
         c10.use_rules(r, R)
         c10.rename_rules(r, R)
+    # the generated text must be well-formed, with guarded field names and struct types that are defined once: the C04
+    # pack is a necessary condition of `compiles unchanged` (its known findings K2/K3 are listed for this property too)
+    from . import c04
+    c04.core(r, lib)
+    # from_str can only succeed on the source documents if the inferred schema admits them: the soundness-direction
+    # mechanism rules of C01 are necessary conditions of this property as well (evaluated with C01's tags)
+    from . import c15, c16, pm
+    saved = r.prop
+    try:
+        r.prop = "C01"
+        pm.run_all(ctx)
+        c16.tree_contracts(r, lib)
+        c15.check_merge(r, lib)
+    finally:
+        r.prop = saved
